@@ -18,6 +18,49 @@ package vegeta
 //@              cp.Freq*(elapsed+wait) <= (hits+1)*cp.Per + cp.Per + cp.Freq*(hits+1)
 //@   ensures [E6] cp.Per > 0 && cp.Freq > 0 && stop ==> hits == MaxUint64 || (hits+1)*cp.Per > cp.Freq*(MaxInt64 - cp.Per)
 
+//@ lemma closed_loop_constant property C01
+//@   forall F, P, e, h, w, d, t int ::
+//@     F > 0 && P > 0 && e >= 0 && h >= 0 && d >= 0 && h*P <= F*(e + max(w,0)) && t >= e + max(w,0) + d
+//@       ==> (h+1)*P <= F*t + P
+
+// helper methods of the pacers: inlined into their callers (no contract of their own)
+//@ func (ConstantPacer).hitsPerNs
+//@   inline
+//@ func (SinePacer).invalid
+//@   inline
+//@ func (SinePacer).ampHits
+//@   inline
+//@ func (SinePacer).radians
+//@   inline
+//@ func (SinePacer).hitsPerNs
+//@   inline
+//@ func (SinePacer).hits
+//@   inline
+//@ func (LinearPacer).Rate
+//@   inline
+//@ func (LinearPacer).hits
+//@   inline
+
+// Float pacers: what is proved is panic-freedom and the zero/negative/invalid parameter
+// clauses; floats are uninterpreted, and overflow of float-derived integers is not an
+// obligation here (pragma): the schedule clauses are the bounded stand-in's business.
+//@ func (LinearPacer).Pace
+//@   property C01
+//@   returns (wait, stop)
+//@   pragma nooverflow skip
+//@   ensures [E1] (p.StartAt.Per == 0 || p.StartAt.Freq == 0) ==> wait == 0 && !stop
+//@   ensures [E2] p.StartAt.Per != 0 && p.StartAt.Freq != 0 && (p.StartAt.Per < 0 || p.StartAt.Freq < 0) ==> stop
+//@   ensures [first-hit-at-once] p.StartAt.Per > 0 && p.StartAt.Freq > 0 && hits == 0 ==> wait == 0 && !stop
+
+//@ func (SinePacer).Pace
+//@   property C01
+//@   returns (wait, stop)
+//@   pragma nooverflow skip
+//@   ensures [invalid-stops] sp.Period <= 0 ==> stop && wait == 0
+//@   loop 1
+//@     invariant 0 <= i && i <= 5
+//@     decreases 5 - i
+
 // ---------------------------------------------------------------------------------- C12
 
 //@ spec func inBucket(h *Histogram, L int, k int) bool = h.Buckets[k] <= L && (k == len(h.Buckets)-1 || L < h.Buckets[k+1])
